@@ -122,7 +122,10 @@ class E2:
                 return "holds", ""
             return "violated", "; ".join(f"{d} @ {w}" for d, w in r["failed"])[:600]
         if kind == "ill":
-            unexpected = [(d, w) for d, w in r["failed"] if not any(e in d for e in EXPECTED_PANICS)]
+            # Butterfly1's out-of-place/immutable entry points rely on copy_from_slice's own length
+            # check; Kani renders that panic's formatted message as a placeholder, so it is recognised
+            # by its location in core::slice::copy_from_slice
+            unexpected = [(d, w) for d, w in r["failed"] if not any(e in d for e in EXPECTED_PANICS) and "copy_from_slice" not in w]
             if r["cover_total"] and r["cover_sat"]:
                 return "violated", "an ill-shaped call returned normally (cover after the call is satisfiable)"
             if unexpected:
